@@ -1,39 +1,32 @@
 import json,os,re,shutil
-blind={'C02','C10','C13','C14','C17','C18'}
-related={'C09':'C19'}
-also_neighbour={'C05':'C19','C06':'C13'}
+blind={'C11','C20'}
+related={}
+also_neighbour={'C04':'C17'}
 notcaught=set()
 strengthened={
- 'C01':'processing-time window-object scripts with a consumer that holds the first delivery for 4.5 windows',
- 'C03':'parameterised aggregates in the middle and at the end of the expression-argument list',
- 'C04':'batches next to one whose aggregate argument panics report exactly their own groups',
- 'C05':'three Emits into an input buffer of one row under drop / expand: no row twice, order kept (C19 reported the change as it stood)',
- 'C06':'case-variant expression pairs evaluated in one process (C13 reported the change as it stood)',
- 'C07':'text sort keys that read as numbers',
- 'C08':'streams that simply stop (no sentinel), sizes that are no multiple of the slide',
- 'C09':'(not strengthened: a result channel of capacity 0 is outside the scheduler\'s model; reported by the free-running accounting pass registered under C19)',
- 'C11':'reluctant quantifiers, also spelt with blanks between all tokens',
- 'C12':'TRIGGER WHEN literals holding foreign quotes, operators and keywords, against a reference',
- 'C15':'an exact count next to a variable-length part',
- 'C16':'upserts whose row prints like the stored one',
- 'C19':'rows without any column',
- 'C20':'FROM alias without a JOIN',
+ 'C04':'the global kind of half of the tuple alphabets uses a compound trigger over unselected aggregates',
+ 'C05':'a quoted map key with leading and trailing blanks',
+ 'C06':'text literals holding the other quote character, commas and parentheses as function arguments',
+ 'C07':'HAVING CASE over an aggregate that is not selected',
+ 'C09':'the count written with a leading zero',
+ 'C12':'TRIGGER WHEN over the same aggregate function of two columns, against a reference',
+ 'C15':'events that lack the column a DEFINE condition names',
+ 'C16':'RegisterTable under a registered name replaces the table',
 }
-for i in range(1,21):
-    id='C%02d'%i
-    m=json.load(open('/tmp/seed13/out-%s/meta.json'%id))
-    res=open('/tmp/seed13/verify-%s.log'%id).read()
+for id in ['C04','C05','C06','C07','C09','C11','C12','C15','C16','C20']:
+    m=json.load(open('/tmp/seed14/out-%s/meta.json'%id))
+    res=open('/tmp/seed14/verify-%s.log'%id).read()
     r=re.search(r'RESULT \S+ suite_rc=(\d) demo_with_rc=(\d) demo_without_rc=(\d)',res)
-    d='/verif/seeded/%s-r13'%id
+    d='/verif/seeded/%s-r14'%id
     os.makedirs(d,exist_ok=True)
-    shutil.copy('/tmp/seed13/out-%s/patch.diff'%id,d+'/patch.diff')
-    shutil.copy('/tmp/seed13/out-%s/demo_test.go'%id,d+'/demo_test.go')
+    shutil.copy('/tmp/seed14/out-%s/patch.diff'%id,d+'/patch.diff')
+    shutil.copy('/tmp/seed14/out-%s/demo_test.go'%id,d+'/demo_test.go')
     out={
-     'property':id,'round':13,'origin':'fresh sub-agent given only the property text, a scratch worktree and the locations of the changes of the earlier rounds to avoid',
+     'property':id,'round':14,'origin':'fresh sub-agent given only the property text, a scratch worktree and the locations of the changes of the earlier rounds to avoid',
      'summary':m.get('summary'),'needs':m.get('needs'),
      'demo_path':m.get('demo_path'),
-     'demo_cmd':re.sub(r'/tmp/seed13/wt-C\d\d','<repo>',m.get('demo_cmd','')),
-     'base_commit':'the HEAD of /repo when round 13 started (patch applies to the current HEAD)',
+     'demo_cmd':re.sub(r'/tmp/seed14/wt-C\d\d','<repo>',m.get('demo_cmd','')),
+     'base_commit':'the HEAD of /repo when round 14 started (patch applies to the current HEAD)',
      'verified_by_me':{'how':'tools/verify_seed.sh in the scratch worktree: full suite with the change, demonstration with and without it',
         'suite_with_change':'pass' if r.group(1)=='0' else 'FAIL','demo_with_change':'FAIL' if r.group(2)!='0' else 'pass','demo_without_change':'pass' if r.group(3)=='0' else 'FAIL'},
      'caught_before_any_change_to_the_check': id in blind or id in related or id in also_neighbour,
